@@ -133,12 +133,15 @@ def check_property(pid, tier, cache=True, only_groups=None):
     def log(s):
         print(s, flush=True)
 
-    known_all = [k for k in load_known() if k.get('property') == pid and k.get('status') == 'known']
+    known_all = [k for k in load_known() if (k.get('property') == pid or pid in k.get('also_properties', [])) and k.get('status') == 'known']
     known_by_group = {}
     for k in known_all:
         if k.get('carve_out') and k.get('group'):
             for gn in ([k['group']] + list(k.get('also_groups', []))):
                 known_by_group.setdefault(gn, []).append(carve_fn(k['carve_out']))
+        if k.get('native_match'):
+            for gn in k.get('groups', []):
+                known_by_group.setdefault(gn, []).append(eval("lambda d: " + k['native_match'], {}))
     log("== %s (%s tier): %d obligation groups: %s" % (pid, tier, len(gnames), ', '.join(gnames)))
     results, timing = runmod.run_groups(gnames, tier, known_by_group, log, cache=cache)
     violations, undecided, crashes = [], [], []
